@@ -17,10 +17,60 @@ from common import enc_bool, enc_rat, errname
 
 PROP = "C14"
 THEOREMS = [
+    "Verif.C14.unique_spec",
+    "Verif.C14.globalNames_spec",
+    "Verif.C14.build_table_keys",
+    "Verif.C14.condition_route_correct",
+    "Verif.C14.shared_one_value",
+    "Verif.C14.renamed_distinct_index",
+    "Verif.C14.renamed_independent",
+    "Verif.C14.constants_stay_local",
+    "Verif.C14.routes_agree",
+    "Verif.C14.rebuild_idempotent",
+    "Verif.C14.rebuild_of_built",
+    "Verif.C14.forced_rebuild_same",
+    "Verif.C14.addData_ok",
+    "Verif.C14.add_data_names_mono",
+    "Verif.C14.add_data_appends",
+    "Verif.C14.add_data_keeps_entries",
+    "Verif.C14.fit_spec",
+    "Verif.C14.fixed_unchanged",
+    "Verif.C14.fit_table_length",
+    "Verif.C14.within_bounds",
+    "Verif.C14.free_values_are_answer",
+    "Verif.C14.initial_out_of_bounds_rejected",
+    "Verif.C14.valueError_iff_start_outside",
+    "Verif.C14.failed_fit_no_change",
+    "Verif.C14.nothing_to_fit",
+    "Verif.C14.collision_witness",
+    "Verif.C14.add_data_reorder_witness",
+    "Verif.C14.defaults_misaligned_witness",
+    "Verif.C14.scatter_duplicate_witness",
 ]
-RULE = ""
-TRUSTED = []
-ASSUMPTIONS = []
+RULE = (
+    "A case is a script of user actions on a real FdFit (add dataset with renamings/numeric overrides, set value/"
+    "bounds/fixed flag, fit, query, Jacobian-row probe); the optimiser's answers are recorded and fed to the model. "
+    "Streams: corpus (worked example, the inputs of observations O-C14-A/B/C, name reordering, every error path) + "
+    "exhaustive small scope (model y=a+b*x, 1-2 datasets (thorough: 1-3), every combination of target kinds own/"
+    "renamed/constant/other-parameter(/shared name) per parameter and dataset, 2-3 fixing/bounding patterns, each "
+    "with query, probe, fit, query, refit, query) + seeded random scripts (1-3 polynomial models with 1-5 "
+    "parameters, optional shared kT, random defaults/bounds/fixed flags, analytic or 2-point Jacobian, 1-4 datasets "
+    "on random models with renamings to fresh/pooled/foreign/duplicate names and int/float constants, NaN samples, "
+    "interleaved sets incl. degenerate and infeasible boxes, 1-3 fits; ~10% malformed actions: duplicate dataset "
+    "name, unknown override key, unequal lengths, unknown parameter) + bookkeeping-only scripts on the library's "
+    "built-in / composite / offset models + unique() lists. Non-trivial: a fit ran to the end with >=2 datasets, an "
+    "override or a fixed parameter; or an error path was hit; or >=2 datasets with an override were queried."
+)
+TRUSTED = [
+    "scipy.optimize.least_squares is a PARAMETER of the model (recorded per call and replayed to the Lean model); the only assumption the theorems use (OptInBox: the answer lies in the box passed to it) is asserted by the oracle on every recorded call",
+    "the standard-error computation after the write-back (Fit.cov, sigma) is outside the model; an exception raised there is recorded as '!post' and not compared",
+    "Python str() of a numeric override is sent to the model verbatim (the code builds condition strings from it)",
+]
+ASSUMPTIONS = [
+    "CondInj (hypothesis of the 'what a dataset sees' theorems): within one model, datasets with different target lists have different condition strings; false only when a parameter NAME equals the str() of a numeric override in the same position or names contain '|' (observation O-C14-A, corpus cases, reported as KNOWN-FINDING)",
+    "parameter values and finite bounds are finite doubles (no NaN); model arguments are identifiers",
+    "recovery of the generating parameters is EXPLORATION only (seeded fits on noise-free data), not a theorem",
+]
 
 # ------------------------------------------------------------------ encoders
 
@@ -372,26 +422,595 @@ def agree(case, i, ia, ma):
     return False
 
 
+# ------------------------------------------------------------------ oracle (plain Python from the property text)
+
+KNOWN_CLASSES = ("sees[condition-string-collision]", "jacobian[duplicate-target]")
+
+
+def parse_table(t):
+    """'T[name:value:lb:ub:fixed,...]' -> list of (name, value, lb, ub, fixed) with exact Fractions / None"""
+    body = t[2:-1]
+    rows = []
+    if body:
+        for e in body.split(","):
+            n, v, lo, hi, fx = e.split(":")
+            rows.append((unshowstr(n), _frac(v), None if lo == "N" else _frac(lo), None if hi == "N" else _frac(hi), fx == "T"))
+    return rows
+
+
+def _frac(s):
+    p, q = s.split("/")
+    return Fraction(int(p), int(q))
+
+
+def parse_ratlist(s):
+    body = s[1:-1]
+    return [] if body == "" else [_frac(x) for x in body.split(",")]
+
+
+def parse_optratlist(s):
+    body = s[1:-1]
+    return [] if body == "" else [None if x == "N" else _frac(x) for x in body.split(",")]
+
+
+def parse_query(o):
+    t, l = o.split(" L", 1)
+    table = parse_table(t)
+    models = []
+    for blk in l[1:-1].split("}{") if l else []:
+        ds = {}
+        if blk:
+            for part in blk.split(" "):
+                n, a, b = part.split("=")
+                ds[unshowstr(n)] = (None if a == "missing" else parse_ratlist(a), None if "IndexError" in b else parse_ratlist(b))
+        models.append(ds)
+    return table, models
+
+
+def in_bounds(v, lo, hi):
+    return (lo is None or lo <= v) and (hi is None or v <= hi)
+
+
+def cond_string(targets):
+    return "|".join(str(t) for t in targets)
+
+
 def oracle(case, ia):
-    return None
+    if case["op"] == "unique":
+        names = case["names"]
+        seen = []
+        for n in names:
+            if n not in seen:
+                seen.append(n)
+        exp = "[" + ",".join(showstr(s) for s in seen) + "] [" + ",".join(str(seen.index(n)) for n in names) + "]"
+        return None if ia[0] == exp else f"unique: first-occurrence de-duplication of {names} is {exp}, implementation says {ia[0]}"
+    obs = ia[0].split(";")
+    acts = case["actions"]
+    if len(obs) != len(acts):
+        return f"harness-bug: {len(obs)} observations for {len(acts)} actions"
+    k = _key(case)
+    mtab = _CACHE[k][1] if k in _CACHE else None
+    pnames = []
+    for i, spec in enumerate(case["models"]):
+        names = model_param_names(spec)
+        if names is None:
+            names = [n for n, _ in mtab[i]]
+        pnames.append(names)
+    fails = []
+
+    def fail(cid, msg):
+        fails.append(f"{cid}: {msg}")
+
+    data = [[] for _ in case["models"]]  # per model: list of (dsname, [targets], nvalid, x0)
+    all_names = []  # str targets so far (first-occurrence order irrelevant here)
+    E = {}  # what the oracle knows about parameters: name -> dict(field -> value)
+    prevT = None  # table of the immediately preceding query (None once anything happened in between)
+    truth = case.get("truth")
+    last_fit_free = None
+    for idx, (act, o) in enumerate(zip(acts, obs)):
+        a = act["a"]
+        if a == "add":
+            mi = act["mi"]
+            names = pnames[mi]
+            ov = act.get("ov", {})
+            if any(d[0] == act["name"] for d in data[mi]):
+                exp = "add:KeyError"
+            elif len(act["x"]) != len(act["y"]):
+                exp = "add:ValueError"
+            elif any(key not in names for key in ov):
+                exp = "add:KeyError"
+            else:
+                exp = "add:ok"
+                targets = []
+                for pn in names:
+                    t = ov.get(pn)
+                    targets.append(pn if t is None else (t["n"] if "n" in t else t["c"]))
+                valid = [(xv, yv) for xv, yv in zip(act["x"], act["y"]) if not (math.isnan(xv) or math.isnan(yv))]
+                data[mi].append((act["name"], targets, len(valid), valid[0][0] if valid else None))
+                for t in targets:
+                    if isinstance(t, str) and t not in all_names:
+                        all_names.append(t)
+            if o != exp:
+                fail("add", f"action {idx}: expected {exp}, implementation says {o}")
+            prevT = None
+        elif a == "set":
+            exp = "set:ok" if act["name"] in all_names else "set:IndexError"
+            if o != exp:
+                fail("set", f"action {idx}: expected {exp}, implementation says {o}")
+            if exp == "set:ok":
+                v = act["v"]
+                E.setdefault(act["name"], {})[act["f"]] = (None if v is None else (bool(v) if act["f"] == "fixed" else Fraction(v)))
+            prevT = None
+        elif a == "query":
+            try:
+                table, loc = parse_query(o)
+            except Exception as e:  # an implementation answer the oracle cannot read is a failure of the case
+                fail("query", f"action {idx}: unreadable observation {o[:200]} ({e!r})")
+                prevT = None
+                continue
+            tn = [r[0] for r in table]
+            if len(set(tn)) != len(tn) or set(tn) != set(all_names):
+                fail("table-names", f"action {idx}: table has {tn}, the datasets name {all_names}")
+            T = {r[0]: r for r in table}
+            # what was set / fitted earlier is still there
+            for n, flds in E.items():
+                if n in T:
+                    _, v, lo, hi, fx = T[n]
+                    got = {"value": v, "lb": lo, "ub": hi, "fixed": fx}
+                    for f, ev in flds.items():
+                        if got[f] != ev:
+                            fail("kept", f"action {idx}: parameter {n!r} {f} is {got[f]} but was last set/fitted to {ev}")
+            for r in table:
+                E[r[0]] = {"value": r[1], "lb": r[2], "ub": r[3], "fixed": r[4]}
+            # every dataset sees the table entry of the name it is mapped to, or its constant
+            for mi, dsl in enumerate(data):
+                strs = [cond_string(d[1]) for d in dsl]
+                for di, (dn, targets, _, _) in enumerate(dsl):
+                    collision = any(strs[j] == strs[di] and [type(x) for x in dsl[j][1]] + list(dsl[j][1]) != [type(x) for x in targets] + list(targets) for j in range(len(dsl)))
+                    if mi >= len(loc) or dn not in loc[mi]:
+                        fail("sees", f"action {idx}: dataset {dn!r} of model {mi} is not evaluated")
+                        continue
+                    if any(isinstance(t, str) and t not in T for t in targets):
+                        continue  # already reported by table-names
+                    exp = [T[t][1] if isinstance(t, str) else Fraction(t) for t in targets]
+                    byidx, byname = loc[mi][dn]
+                    cid = "sees[condition-string-collision]" if collision else "sees"
+                    if byidx != exp:
+                        fail(cid, f"action {idx}: dataset {dn!r} (model {mi}) maps its parameters to {targets}; the residual is evaluated with {[str(v) for v in byidx or []]}, the table says {[str(v) for v in exp]}")
+                    if byname != exp:
+                        fail(cid, f"action {idx}: dataset {dn!r} (model {mi}) maps its parameters to {targets}; get_params gives {[str(v) for v in byname or []]}, the table says {[str(v) for v in exp]}")
+            # recovery (EXPLORATION): after a fit on noise-free data the generating values are back
+            chk = act.get("check")
+            if chk and truth is not None:
+                tol = act.get("tol", 1e-3)
+                for n, tv in truth.items():
+                    if n in T and not T[n][4]:
+                        if abs(float(T[n][1]) - tv) > tol * max(abs(tv), 1e-12):
+                            fail("recover", f"action {idx} ({chk}): {n!r} = {float(T[n][1])!r}, generating value {tv!r} (rel tol {tol})")
+            prevT = table
+        elif a == "fit":
+            Tb = prevT
+            nxt = None
+            if idx + 1 < len(acts) and acts[idx + 1]["a"] == "query":
+                try:
+                    nxt = parse_query(obs[idx + 1])[0]
+                except Exception:
+                    nxt = None
+            npoints = sum(d[2] for dsl in data for d in dsl)
+            parts = o.split(":")
+            head = parts[1].split("!")[0] if len(parts) > 1 else ""
+            ran = o.startswith("fit:ok:")
+            optimiser_called = len(parts) >= 5
+            if Tb is not None:
+                free = [r for r in Tb if not r[4]]
+                if npoints == 0 or not free:
+                    exp = "RuntimeError"
+                elif any(not in_bounds(r[1], r[2], r[3]) for r in free):
+                    exp = "ValueError"
+                else:
+                    exp = None
+                if exp is not None:
+                    if optimiser_called or head != exp:
+                        fail("fit-refused", f"action {idx}: expected {exp} before the optimiser is called (points {npoints}, free {[r[0] for r in free]}), implementation says {o[:120]}")
+                elif not optimiser_called:
+                    fail("fit-refused", f"action {idx}: start point is feasible and there is data, but fit answered {o[:120]}")
+                if optimiser_called:
+                    x0 = parse_ratlist(parts[2])
+                    lb = parse_optratlist(parts[3])
+                    ub = parse_optratlist(parts[4])
+                    if x0 != [r[1] for r in free] or lb != [r[2] for r in free] or ub != [r[3] for r in free]:
+                        fail("fit-call", f"action {idx}: the optimiser was not started from the free parameters with their bounds: {o[:200]}")
+            if ran:
+                x = parse_ratlist(parts[5].split("!")[0])
+                lb = parse_optratlist(parts[3])
+                ub = parse_optratlist(parts[4])
+                if len(x) != len(lb) or any(not in_bounds(v, lo, hi) for v, lo, hi in zip(x, lb, ub)):
+                    fail("optimiser-contract", f"action {idx}: least_squares answered a point outside its box: {o[:200]}")
+                if Tb is not None and nxt is not None:
+                    if [r[0] for r in nxt] != [r[0] for r in Tb]:
+                        fail("fit-table", f"action {idx}: the table changed its names/order across fit")
+                    else:
+                        kk = 0
+                        for rb, ra in zip(Tb, nxt):
+                            if rb[4]:
+                                if ra != rb:
+                                    fail("fixed", f"action {idx}: fixed parameter {rb[0]!r} changed across fit: {rb[1:]} -> {ra[1:]}")
+                            else:
+                                if ra[2:] != rb[2:]:
+                                    fail("fit-table", f"action {idx}: bounds/flag of {rb[0]!r} changed across fit")
+                                if kk < len(x) and ra[1] != x[kk]:
+                                    fail("write-back", f"action {idx}: {rb[0]!r} is {ra[1]} after the fit, the optimiser answered {x[kk]}")
+                                if not in_bounds(ra[1], ra[2], ra[3]):
+                                    fail("bounds", f"action {idx}: fitted {rb[0]!r} = {ra[1]} outside [{ra[2]}, {ra[3]}]")
+                                kk += 1
+                if Tb is not None:
+                    kk = 0
+                    for rb in Tb:
+                        if not rb[4]:
+                            if kk < len(x):
+                                E[rb[0]] = {"value": x[kk], "lb": rb[2], "ub": rb[3], "fixed": False}
+                            kk += 1
+                else:
+                    for n in E:
+                        E[n].pop("value", None)
+            else:
+                if Tb is not None and nxt is not None and nxt != Tb:
+                    fail("failed-fit-wrote", f"action {idx}: fit ended with {o[:60]} but the table changed")
+            prevT = None
+        elif a == "jac":
+            Tb = prevT
+            if Tb is not None and o.startswith("J["):
+                mi = act["mi"]
+                ent = [d for d in data[mi] if d[0] == act["name"]]
+                if ent:
+                    _, targets, nvalid, _ = ent[0]
+                    row = parse_ratlist(o[1:].split("!")[0])
+                    sens = [Fraction(v) for v in act["sens"]]
+                    exp = []
+                    for r in Tb:
+                        exp.append(-sum((s for s, t in zip(sens, targets) if isinstance(t, str) and t == r[0]), Fraction(0)))
+                    strs = [t for t in targets if isinstance(t, str)]
+                    dup = len(set(strs)) != len(strs)
+                    if row != exp:
+                        fail("jacobian[duplicate-target]" if dup else "jacobian", f"action {idx}: d(residual)/d(parameters) of dataset {act['name']!r} should be {[str(v) for v in exp]} (chain rule over {targets}), the fit's Jacobian has {[str(v) for v in row]}")
+            # prevT stays valid: a probe changes nothing
+        else:
+            return f"harness-bug: unknown action {a}"
+    if not fails:
+        return None
+    unknown = [f for f in fails if f.split(":")[0] not in KNOWN_CLASSES]
+    return (unknown or fails)[0]
+
+
+def tags(case, r):
+    c = r.get("clause") or ""
+    return {"op": case["op"], "clause_id": c.split(":")[0] if c else None}
 
 
 def nontrivial(case, ia):
-    return True
+    if case["op"] == "unique":
+        return len(set(case["names"])) < len(case["names"])
+    o = ia[0]
+    nds = sum(1 for a in case["actions"] if a["a"] == "add")
+    has_ov = any(a.get("ov") for a in case["actions"] if a["a"] == "add")
+    return ("fit:ok" in o and (nds >= 2 or has_ov or ":T]" in o or ":T," in o)) or "Error" in o or (nds >= 2 and has_ov)
+
+
+def shrink(case):
+    if case["op"] != "script":
+        return
+    acts = case["actions"]
+    for i in range(len(acts) - 1, -1, -1):
+        c = dict(case)
+        c["actions"] = acts[:i] + acts[i + 1 :]
+        yield c
+    for i, a in enumerate(acts):
+        if a["a"] == "add" and len(a["x"]) > 2 and len(a["x"]) == len(a["y"]):
+            c = dict(case)
+            b = dict(a)
+            b["x"] = a["x"][: len(a["x"]) // 2 + 1]
+            b["y"] = a["y"][: len(a["y"]) // 2 + 1]
+            c["actions"] = acts[:i] + [b] + acts[i + 1 :]
+            yield c
+        if a["a"] == "add" and a.get("ov"):
+            for key in list(a["ov"]):
+                c = dict(case)
+                b = dict(a)
+                b["ov"] = {k2: v for k2, v in a["ov"].items() if k2 != key}
+                c["actions"] = acts[:i] + [b] + acts[i + 1 :]
+                yield c
+
+
+# ------------------------------------------------------------------ generators
+
+XS = [0.0, 1.0, 2.0, 3.0, -1.0, 0.5, 4.0, -2.0, 1.5, 2.5, 5.0, -0.5]
+
+
+def poly_y(coef, x):
+    return [float(sum(c * xv**k for k, c in enumerate(coef))) for xv in x]
+
+
+def poly_spec(name, args, defaults=None, shared=(), jac=True):
+    return {"kind": "poly", "name": name, "args": list(args), "defaults": defaults or {}, "shared": list(shared), "jac": jac}
+
+
+def add_action(mi, name, x, coef, ov=None, y=None):
+    a = {"a": "add", "mi": mi, "name": name, "x": list(x), "y": poly_y(coef, x) if y is None else list(y)}
+    if ov:
+        a["ov"] = ov
+    return a
+
+
+def sens_for(act, nargs):
+    """local sensitivities of a polynomial model at the first valid data point"""
+    for xv, yv in zip(act["x"], act["y"]):
+        if not (math.isnan(xv) or math.isnan(yv)):
+            return [float(xv**k) for k in range(nargs)]
+    return None
+
+
+Q = {"a": "query"}
+F = {"a": "fit"}
+
+
+def S(name, f, v):
+    return {"a": "set", "name": name, "f": f, "v": v}
+
+
+def script(stream, models, actions, **kw):
+    c = {"stream": stream, "op": "script", "models": models, "actions": actions}
+    c.update(kw)
+    return c
+
+
+def corpus_cases():
+    x = XS[:4]
+    M = poly_spec("M", ["a", "b"], {"a": [1.0, None, None, False], "b": [2.0, -5.0, 5.0, False]})
+    # the worked example: sharing, renaming, a constant, a fit, a Jacobian probe
+    a1 = add_action(0, "d1", x, [1, 3])
+    a2 = add_action(0, "d2", x, [2, 3], {"M/a": {"n": "M/a2"}})
+    a3 = add_action(0, "d3", x, [5, 3], {"M/a": {"c": 5}})
+    yield script("corpus", [M], [Q, a1, Q, a2, a3, Q, F, Q, {"a": "jac", "mi": 0, "name": "d2", "sens": sens_for(a2, 2)}, F, Q])
+    # O-C14-A: a parameter NAMED like a constant prints the same condition string
+    yield script("corpus", [M], [add_action(0, "d1", x, [5, 3], {"M/a": {"c": 5}}), add_action(0, "d2", x, [1, 3], {"M/a": {"n": "5"}}), Q])
+    yield script("corpus", [M], [add_action(0, "d1", x, [1, 3], {"M/a": {"n": "x|y"}, "M/b": {"n": "z"}}), add_action(0, "d2", x, [1, 3], {"M/a": {"n": "x"}, "M/b": {"n": "y|z"}}), S("x|y", "value", 10.0), S("x", "value", 20.0), Q])
+    # O-C14-B: a model without data in front of one with data (defaults by position)
+    A = poly_spec("A", ["off"], {"off": [0.01, -0.1, 0.1, False]})
+    B = poly_spec("B", ["Lp", "Lc", "kT"], {"Lp": [40.0, 0.001, 100.0, False], "Lc": [16.0, 0.00034, None, False], "kT": [4.11, 3.77, 8.0, True]}, shared=["kT"])
+    bx = add_action(1, "d", XS[:6], [1, 2, 3])
+    yield script("corpus", [A, B], [bx, Q])
+    yield script("corpus", [A, B], [bx, Q, add_action(0, "e", x, [0.5]), Q, F, Q])
+    yield script("corpus", [B, A], [add_action(0, "d", XS[:6], [1, 2, 3]), Q])
+    # O-C14-C: two parameters of one dataset mapped to one name: the Jacobian scatter keeps one contribution
+    ad1 = add_action(0, "d1", [1.0, 2.0, 3.0, 4.0, 5.0], [3, 3], {"M/b": {"n": "M/a"}})
+    yield script("corpus", [M], [ad1, Q, {"a": "jac", "mi": 0, "name": "d1", "sens": [1.0, 1.0]}])
+    yield script("corpus", [M], [ad1, Q, {"a": "jac", "mi": 0, "name": "d1", "sens": [1.0, 1.0]}, F, Q])
+    # adding to an earlier model can reorder names of a later model (entries are kept by name)
+    P1 = poly_spec("P", ["p", "q"], {"p": [1.0, None, None, False], "q": [2.0, None, None, False]})
+    P2 = poly_spec("R", ["r", "q"], {"r": [3.0, None, None, False], "q": [4.0, 0.0, 9.0, True]})
+    yield script("corpus", [P1, P2], [
+        add_action(0, "a", x, [1, 1], {"P/q": {"n": "P/p"}}), add_action(1, "c", x, [1, 1]), Q, S("R/r", "value", 7.5), S("R/q", "ub", 8.0), Q,
+        add_action(0, "b", x, [1, 1], {"P/p": {"n": "R/q"}, "P/q": {"n": "R/r"}}), Q])
+    # errors
+    yield script("corpus", [M], [F, Q, a1, a1, add_action(0, "e", x, [1, 1], {"M/c": {"n": "z"}}), add_action(0, "f", x, [1, 1], y=[1.0]), S("nope", "value", 1.0), Q,
+                                 S("M/a", "fixed", True), S("M/b", "fixed", True), Q, F, Q, S("M/b", "fixed", False), S("M/b", "value", 6.0), Q, F, Q,
+                                 S("M/b", "value", 5.0), S("M/b", "lb", 5.0), Q, F, Q])
+    # only NaN data: no residuals
+    yield script("corpus", [M], [add_action(0, "d1", x, [1, 1], y=[float("nan")] * 4), Q, F, Q])
+    yield {"stream": "corpus", "op": "unique", "names": ["a", "b", "a", "c", "b"]}
+    yield {"stream": "corpus", "op": "unique", "names": []}
+
+
+TARGET_KINDS = ["own", "ren", "shared", "const", "other"]
+
+
+def small_scope(tier):
+    """one model y = a + b x, up to 2 (quick) / 3 (thorough) datasets, every combination of target kinds per parameter
+    and dataset, fixing / bounding patterns; adds, query, Jacobian probe, fit, query, refit, query"""
+    quick = tier == "quick"
+    import itertools
+
+    M = poly_spec("M", ["a", "b"], {"a": [1.0, None, None, False], "b": [2.0, -50.0, 50.0, False]})
+    names = ["M/a", "M/b"]
+    nds_list = [1, 2] if quick else [1, 2, 3]
+    kinds = ["own", "ren", "const", "other"] if quick else TARGET_KINDS
+    for nds in nds_list:
+        for combo in itertools.product(itertools.product(kinds, repeat=2), repeat=nds):
+            if nds == 3 and sum(k == "own" for c in combo for k in c) > 3:
+                continue
+            acts = []
+            tnames = []
+            for di, kk in enumerate(combo):
+                ov = {}
+                for pi, kd in enumerate(kk):
+                    pn = names[pi]
+                    if kd == "ren":
+                        ov[pn] = {"n": f"{pn}_{di}"}
+                    elif kd == "shared":
+                        ov[pn] = {"n": "S"}
+                    elif kd == "const":
+                        ov[pn] = {"c": [1.0, 3][pi] + di}
+                    elif kd == "other":
+                        ov[pn] = {"n": names[1 - pi]}
+                for pn in names:
+                    t = ov.get(pn, {"n": pn})
+                    if "n" in t and t["n"] not in tnames:
+                        tnames.append(t["n"])
+                coef = [1.0 + di, 3.0]
+                acts.append(add_action(0, f"d{di}", XS[1 : 6 + di], coef, ov))
+            for fixpat in range(3 if not quick else 2):
+                post = [Q]
+                if fixpat == 1 and tnames:
+                    post = [S(tnames[0], "fixed", True), S(tnames[0], "value", 1.5), Q]
+                elif fixpat == 2 and tnames:
+                    post = [S(tnames[-1], "lb", 0.0), S(tnames[-1], "ub", 2.5), S(tnames[-1], "value", 2.0), Q]
+                probe = [{"a": "jac", "mi": 0, "name": "d0", "sens": sens_for(acts[0], 2)}]
+                yield script("small-scope", [M], acts + post + probe + [F, Q, F, Q])
+
+
+NAME_POOL = ["x", "y", "shared", "M/a_2", "DNA/Lc_RecA", "λ/Lc", "k T", "", "a.b", "P/c0"]
+CONSTS = [5, 5.0, 0, 0.0, -1.5, 2, 1e-3, 1e6, 0.1, 3.25]
+
+
+def random_script(rng, stream="random"):
+    nm = rng.choice([1, 1, 1, 2, 2, 3])
+    models = []
+    argpool = ["a", "b", "c", "d"]
+    for mi in range(nm):
+        na = rng.randint(1, 4)
+        args = argpool[:na]
+        shared = []
+        dfl = {}
+        if rng.chance(0.4):
+            args = args + ["kT"]
+            shared = ["kT"]
+            dfl["kT"] = [4.11, 3.77, 8.0, rng.chance(0.7)]
+        for a in args:
+            if a != "kT" and rng.chance(0.7):
+                v = rng.choice([0.0, 1.0, 2.0, -3.0, 0.5])
+                lo = None if rng.chance(0.5) else v - rng.choice([0.0, 1.0, 10.0])
+                hi = None if rng.chance(0.5) else v + rng.choice([0.0, 1.0, 10.0])
+                dfl[a] = [v, lo, hi, rng.chance(0.15)]
+        models.append(poly_spec(["M", "N", "DNA"][mi], args, dfl, shared, jac=rng.chance(0.8)))
+    pn = [model_param_names(m) for m in models]
+    acts = []
+    names_now = []
+    ds_names = [[] for _ in models]
+    nadds = rng.randint(1, 4)
+    pending = []
+    for k in range(nadds):
+        mi = rng.randint(0, nm - 1)
+        names = pn[mi]
+        ov = {}
+        for p in names:
+            c = rng.randint(0, 9)
+            if c <= 3:
+                continue
+            if c <= 5:
+                ov[p] = {"n": f"{p}_{k}"}
+            elif c == 6:
+                ov[p] = {"n": rng.choice(NAME_POOL)}
+            elif c == 7:
+                ov[p] = {"c": rng.choice(CONSTS)}
+            elif c == 8:
+                ov[p] = {"n": rng.choice(names)}
+            else:
+                other = pn[rng.randint(0, nm - 1)]
+                ov[p] = {"n": rng.choice(other)}
+        npts = rng.randint(len(names) + 2, len(names) + 7)
+        x = [rng.choice(XS) + rng.choice([0.0, 0.25, 10.0]) for _ in range(npts)]
+        coef = [rng.choice([0.0, 1.0, -2.0, 0.5, 3.0]) for _ in names]
+        y = poly_y(coef, x)
+        if rng.chance(0.15):
+            j = rng.randint(0, npts - 1)
+            if rng.chance(0.5):
+                x[j] = float("nan")
+            else:
+                y[j] = float("nan")
+        dsn = f"d{k}" if not rng.chance(0.05) or not ds_names[mi] else rng.choice(ds_names[mi])
+        a = {"a": "add", "mi": mi, "name": dsn, "x": x, "y": y}
+        if ov:
+            a["ov"] = ov
+        if rng.chance(0.03):
+            a["ov"] = dict(ov, **{"nope/" + names[0]: {"n": "z"}})
+        if rng.chance(0.03):
+            a["y"] = y[:-1]
+        pending.append((a, len(names), models[mi]["jac"]))
+    # interleave
+    for k, (a, nargs, hasjac) in enumerate(pending):
+        acts.append(a)
+        ok = a["name"] not in ds_names[a["mi"]] and len(a["x"]) == len(a["y"]) and all(key in pn[a["mi"]] for key in a.get("ov", {}))
+        if ok:
+            ds_names[a["mi"]].append(a["name"])
+            for p in pn[a["mi"]]:
+                t = a.get("ov", {}).get(p, {"n": p})
+                if "n" in t and t["n"] not in names_now:
+                    names_now.append(t["n"])
+        if rng.chance(0.5):
+            acts.append(Q)
+        nset = rng.choice([0, 0, 1, 2, 3])
+        for _ in range(nset):
+            if not names_now or rng.chance(0.04):
+                acts.append(S("unknown" + str(rng.randint(0, 9)), "value", 1.0))
+                continue
+            n = rng.choice(names_now)
+            c = rng.randint(0, 9)
+            if c <= 2:
+                acts.append(S(n, "value", rng.choice([0.0, 1.0, -1.0, 2.5, 100.0, 0.3, 7.0])))
+            elif c <= 4:
+                acts.append(S(n, "fixed", rng.chance(0.6)))
+            elif c <= 6:
+                acts.append(S(n, "lb", rng.choice([None, -10.0, 0.0, 1.0, 2.5, -1e6])))
+            elif c <= 8:
+                acts.append(S(n, "ub", rng.choice([None, 10.0, 0.0, 1.0, 2.5, 1e6])))
+            else:
+                v = rng.choice([0.0, 1.0, 2.5])
+                acts += [S(n, "lb", v - rng.choice([0.0, 0.0, 1.0])), S(n, "ub", v + rng.choice([0.0, 1.0])), S(n, "value", v)]
+        if k == len(pending) - 1 or rng.chance(0.35):
+            pre = rng.chance(0.85)
+            if pre:
+                acts.append(Q)
+            if ok and hasjac and pre and rng.chance(0.5):
+                s = sens_for(a, nargs)
+                if s is not None:
+                    acts.append({"a": "jac", "mi": a["mi"], "name": a["name"], "sens": s})
+            acts.append(F)
+            if rng.chance(0.9):
+                acts.append(Q)
+            if rng.chance(0.3):
+                acts += [F, Q]
+    return script(stream, models, acts)
+
+
+def random_builtin(rng):
+    """bookkeeping only (no fit) on the library's own models: prefixed names, the shared kT, composite models"""
+    ctors = ["ewlc_odijk_distance", "efjc_distance", "wlc_marko_siggia_distance", "twlc_distance", "distance_offset", "ewlc_marko_siggia_distance"]
+    nm = rng.choice([1, 2])
+    models = []
+    for mi in range(nm):
+        spec = {"kind": "builtin", "ctor": rng.choice(ctors), "name": ["DNA", "prot"][mi]}
+        if rng.chance(0.3):
+            spec["plus"] = [{"ctor": rng.choice(ctors), "name": "seg" + str(mi)}]
+        if rng.chance(0.2):
+            spec["offset"] = True
+        models.append(spec)
+    acts = []
+    for k in range(rng.randint(1, 3)):
+        mi = rng.randint(0, nm - 1)
+        base = models[mi]["name"]
+        ov = {}
+        for arg in ["Lp", "Lc", "St"]:
+            if rng.chance(0.3):
+                ov[f"{base}/{arg}"] = {"n": f"{base}/{arg}_{k}"} if rng.chance(0.7) else {"c": rng.choice([40.0, 16, 1500.0])}
+        if rng.chance(0.15):
+            ov["kT"] = {"n": "kT_" + str(k)}
+        x = [0.5 + j for j in range(6)]
+        a = {"a": "add", "mi": mi, "name": f"d{k}", "x": x, "y": [1.0 + 0.1 * j for j in range(6)]}
+        if ov:
+            a["ov"] = ov
+        acts.append(a)
+        if rng.chance(0.6):
+            acts.append(Q)
+    acts.append(Q)
+    return script("random-builtin", models, acts)
 
 
 def cases(tier, rng):
-    x = [0.0, 1.0, 2.0, 3.0]
-    M = {"kind": "poly", "name": "M", "args": ["a", "b"], "defaults": {"a": [1.0, None, None, False], "b": [2.0, -5.0, 5.0, False]}}
-    yield {"stream": "corpus", "op": "script", "models": [M], "actions": [
-        {"a": "query"},
-        {"a": "add", "mi": 0, "name": "d1", "x": x, "y": [1 + 3 * v for v in x]},
-        {"a": "query"},
-        {"a": "add", "mi": 0, "name": "d2", "x": x, "y": [2 + 3 * v for v in x], "ov": {"M/a": {"n": "M/a2"}}},
-        {"a": "add", "mi": 0, "name": "d3", "x": x, "y": [5 + 3 * v for v in x], "ov": {"M/a": {"c": 5}}},
-        {"a": "query"},
-        {"a": "fit"},
-        {"a": "query"},
-        {"a": "jac", "mi": 0, "name": "d2", "sens": [1.0, 0.0]},
-    ]}
-    yield {"stream": "corpus", "op": "unique", "names": ["a", "b", "a", "c", "b"]}
+    quick = tier == "quick"
+    yield from corpus_cases()
+    yield from small_scope(tier)
+    r = rng.fork("c14-random")
+    for i in range(900 if quick else 12000):
+        c = random_script(r.fork(i))
+        c["subseed"] = i
+        yield c
+    r = rng.fork("c14-builtin")
+    for i in range(60 if quick else 600):
+        c = random_builtin(r.fork(i))
+        c["subseed"] = i
+        yield c
+    r = rng.fork("c14-unique")
+    for i in range(100 if quick else 2000):
+        sub = r.fork(i)
+        pool = ["a", "b", "c", "a|b", "", "kT", "M/a"]
+        yield {"stream": "random", "op": "unique", "names": [sub.choice(pool) for _ in range(sub.randint(0, 9))], "subseed": i}
